@@ -504,6 +504,8 @@ def _refine_model(formulas, concl, cand, names, F):
     atoms = [(sy, arg, "log") for sy, arg in C.logs] + [(sy, arg, "exp") for sy, arg in C.expsyms.items()]
     if not atoms:
         return None
+    if concl[0] == "atom" and sum(len(part.n) for part in alg.simple_parts(concl[1])) > 120:
+        return None  # too large for the solver to be of any use; the random search below still runs
     extra, pinned = [], set()
     symenv = {C.byname[k]: F.num(v) for k, v in cand.items()}
     if "pi" in C.byname:
